@@ -130,6 +130,16 @@ def gen_cases(tier, rng):
     # allocator of the sanitizer - counted as "resource limit", no verdict: two cases only)
     cases.append('H:f=0 arg:c,cont:vb0: %s kind:container-overflow' % A.argv_tok(['-c', '1000000000000']))
     cases.append('H:f=0 arg:c,cont:vb0: %s kind:container-overflow' % A.argv_tok(['-c', '4611686018427387904']))
+    # negative, huge and malformed positions for bit-set destinations of one word (16 bits) and of several words
+    # (200 bits, a heap block of its own), in every spelling that lets a leading dash through
+    for kind in ('bs', 'bsl', 'vb'):
+        for w in (['--bits=-1'], ['-b-1'], ['-b', '2,-1'], ['-b', '7', '--', '-3'], ['--bits=-64'], ['--bits=-65'], ['-b-200'], ['--bits=199'],
+                  ['--bits=200'], ['--bits=201'], ['-b', '1,199,200'], ['--bits=-9223372036854775808'], ['--bits=-2147483649'], ['--bits=4294967295'],
+                  ['--bits=2147483648'], ['-b', '3', '-b-1']):
+            if kind == 'vb' and any(x in ('--bits=4294967295', '--bits=2147483648') for x in w):
+                continue          # (a valid position: the instrumented resize to 2^31.. bits takes minutes)
+            for opts in ([], ['multi'], ['unset'], ['fmt=lower']):
+                cases.append('H:f=0 arg:b,bits:%s0:%s %s kind:container-overflow' % (kind, '/'.join(opts), A.argv_tok(w)))
     # every short word over the characters that steer the argument iterator ("-", "=", a flag, a value argument, a
     # character nobody knows), alone and followed by a further word: the positions the iterator remembers inside
     # a word (value behind "=", rest of a group of flags) must stay inside the word
